@@ -241,6 +241,9 @@ fn main() {
         });
         sink.merge(sh);
     }
+    // lists of enumerated values whose bytes are a well-formed instance of another structure (a DER name list as signature
+    // algorithms, an extension list as cipher suites, ...)
+    sink.merge(struct_sweep(&run, &[&MSG_HANDSHAKE], &cat::enum_lists_with_foreign_content().0, 0, &sfx, 16, &no_extra));
     // the RFC 8446 layouts of the same message types: a decoder that also "understands" them changes what the
     // TLS 1.2 layout means for some input
     sink.merge(struct_sweep(&run, &[&MSG_HANDSHAKE], &cat::tls13_messages(), run.tier.pick(0, 1), &sfx, 64, &no_extra));
